@@ -15,8 +15,8 @@ pub fn int_tuple(a: i32, b: i32) -> T {
 
 pub fn swarm_cfg(r: &mut Rng, immediate_only: bool) -> EngineCfg {
     EngineCfg {
-        buffer_size: *r.pick(&[1usize, 2, 3, 10000, 10000]),
-        max_wal: *r.pick(&[0u64, 0, 300, 2000]),
+        buffer_size: *r.pick(&[1usize, 2, 3, 4, 5, 8, 10000, 10000, 10000]),
+        max_wal: *r.pick(&[0u64, 0, 0, 300, 1000, 2000]),
         durability: if immediate_only { "immediate".into() } else { r.pick(&["immediate", "batched", "async"]).to_string() },
         num_threads: *r.pick(&[1usize, 1, 2, 4]),
     }
@@ -75,9 +75,35 @@ pub const RULE_BODIES: &[&str] = &[
     "{h}(X, Y) <- {h}(X, Z), r(Z, Y)",
     "{h}(X, Y) <- r(X, Y), Y = 2",
     "{h}(X, Y) <- r(X, Y), X >= 1, Y != 3",
+    // term swarm: what the catalog has to print and re-parse faithfully
+    "{h}(X, Z) <- r(X, Y), Z = Y + 1",
+    "{h}(X, Z) <- r(X, Y), Z = Y * 2 - 1",
+    "{h}(X, Z) <- r(X, Y), Z = (Y + 1) * 2",
+    "{h}(X, Y) <- r(X, Y), Y > -1",
+    "{h}(X, Y) <- r(X, Y), X <= 2.0",
+    "{h}(X, Y) <- r(X, Y), X < 2.5",
+    "{h}(X, \"lit\") <- r(X, _)",
+    "{h}(X, \"he said \\\"hi\\\"\") <- r(X, _)",
+    "{h}(X, -7) <- r(X, _)",
+    "{h}(X, 2.0) <- r(X, _)",
+    "{h}(X, true) <- r(X, _)",
+    "{h}(X, Y) <- r(X, Y), s(Y, _)",
+    "{h}(X, Y) <- r(X, Y), !s(Y, X), X != Y",
 ];
 
 pub fn gen_tuples(r: &mut Rng, n_dom: usize, max_batch: usize) -> Vec<T> {
+    if max_batch >= 3 && r.chance(1, 25) {
+        // a large batch over a larger domain with repeats: one WAL record of several KiB
+        // (crossing sectors and pages), size thresholds of bulk paths
+        let k = *r.pick(&[32usize, 33, 40, 65, 130]);
+        let dom = r.range(8, 50);
+        return (0..k)
+            .map(|_| {
+                let i = r.below(dom) as i32;
+                int_tuple(i + 1, (i * 7 + 2) % 5)
+            })
+            .collect();
+    }
     let k = r.range(1, max_batch as u64) as usize;
     (0..k)
         .map(|_| {
